@@ -44,12 +44,15 @@ NUMREP = 0   # representation of numeric parameters handed to the constructors (
 
 
 def _n(s):
-    """a numeric parameter as users write it: an int where integral (0), always a float (1), a NumPy scalar (2)"""
+    """a numeric parameter as users write it: an int where integral (0), always a float (1), a NumPy scalar (2),
+    a 0-d array (3, only for networks stepped with the NumPy engine, whose "symbols" are arrays)"""
     v = num(s)
     if NUMREP == 1:
         return float(v)
     if NUMREP == 2:
         return np.float64(v)
+    if NUMREP == 3:
+        return np.array(float(v))     # 0-d float64 array (NumPy engine only)
     return int(v) if float(v).is_integer() and abs(v) < 1e9 else v
 
 
@@ -60,12 +63,12 @@ def errstr(e: BaseException) -> str:
 class Built:
     """a network built from a case, with the maps abstract id <-> real object"""
 
-    def __init__(self, case: dict, syms: dict | None = None):
+    def __init__(self, case: dict, syms: dict | None = None, arrays: bool = False):
         global NUMREP
         sm = _sm()
         nj = case["net"]
         names = case.get("names") or {}
-        NUMREP = zlib.crc32(f"{case.get('id')}|numrep".encode()) % 3
+        NUMREP = zlib.crc32(f"{case.get('id')}|numrep".encode()) % (4 if arrays else 3)
         self.bufs = []   # (buffer, pristine copy) behind strided views handed to the library
         syms = syms or {}  # (kind, el) -> symbol replacing a numeric parameter
         nm = lambda i: names.get(i, i)  # noqa: E731
@@ -122,6 +125,19 @@ class Built:
             elif op == "path":
                 net.add_path([obj(i) for i in st[1]], origin=self.origins.get(st[2]) if st[2] else None,
                              destination=self.dests.get(st[3]) if st[3] else None)
+            elif op == "use":
+                # the network is USED half-way through its construction (stepped, compiled, looked at), which must not
+                # matter once construction is finished; the intermediate network may be invalid: errors are the caller's
+                try:
+                    net.is_valid(raises=False)
+                    if st[1] == "np":
+                        net.step(engine=np_engine("rand"), **par_kwargs(case))
+                    else:
+                        eng_ = cs_engine(st[1])
+                        net.step(engine=eng_, **par_kwargs(case))
+                        eng_.to_function(net, compact=0, more_out=True, **par_kwargs(case))
+                except BaseException:  # noqa: BLE001
+                    pass
             else:
                 raise ValueError(f"unknown build step {op}")
         self.net = net
@@ -138,16 +154,19 @@ class Built:
         return s
 
     # ------------------------------------------------------------------ values
-    def np_init(self, x, u, d, mode=0):
+    def np_init(self, x, u, d, mode=0, ints=False, col=False):
         """init_conditions dict of fresh NumPy arrays from abstract values (dicts of floats).
         mode 0: contiguous writable arrays; 1: read-only arrays (an in-place write raises); 2: strided views of larger
-        buffers (an in-place write lands in the caller's buffer, kept in self.bufs for comparison)"""
+        buffers (an in-place write lands in the caller's buffer, kept in self.bufs for comparison);
+        ints: arrays holding whole numbers get an integer dtype; col: the states of single-segment links as (1, 1) columns"""
         def arr(vals):
             a = np.array(vals, float)
+            if ints and a.size and np.all(a == np.round(a)) and np.all(np.abs(a) < 1e6):
+                a = a.astype(np.int64)     # whole numbers written without a decimal point give an integer array
             if mode == 1:
                 a.flags.writeable = False
             elif mode == 2:
-                buf = np.full(2 * len(a) + 3, -777.25)
+                buf = np.full(2 * len(a) + 3, -777).astype(a.dtype)
                 view = buf[1:1 + 2 * len(a):2]
                 view[...] = a
                 self.bufs.append((buf, buf.copy()))
@@ -157,6 +176,8 @@ class Built:
         nj = self.case["net"]
         for l, ob in self.links.items():
             e = {"rho": arr(x["rho"][l]), "v": arr(x["v"][l])}
+            if col and mode == 0 and len(x["rho"][l]) == 1 and not nj["links"][l]["ctl"]:
+                e = {k_: a_.reshape(1, 1) for k_, a_ in e.items()}
             if nj["links"][l]["ctl"]:
                 e["v_ctrl"] = arr(u["vctrl"].get(l, []))
             ic[ob] = e
@@ -302,7 +323,7 @@ def observe(case: dict) -> dict:
            "np": {"has": False}, "np_plain": {"has": False}, "steps": [], "fn": [], "jac": [], "sens": [],
            "twin": {"has": False}, "spy": []}
     try:
-        b = Built(case)
+        b = Built(case, arrays=True)   # this network is only stepped with the NumPy engine
     except BaseException as e:  # noqa: BLE001
         obs["valid_err"] = "build: " + errstr(e)
         return obs
@@ -327,17 +348,73 @@ def observe(case: dict) -> dict:
 
     # ---- NumPy with caller-supplied arrays
     if want.get("np", True):
-        o = {"has": True, "ok": False, "err": "", "y": {"rho": {}, "v": {}, "w": {}}, "shapes": True}
+        o = {"has": True, "ok": False, "err": "", "y": {"rho": {}, "v": {}, "w": {}}, "shapes": True,
+             "flows": {"has": False, "q": {}, "qo": {}, "err": ""}}
         o["pure"] = {"has": False}
         try:
             # C12 (pure): the caller's arrays in three representations, chosen per case
             amode = zlib.crc32(f"{case.get('id')}|arrays".encode()) % 3 if want.get("pure", False) else 0
-            ic = b.np_init(x, u, d, amode)
-            pristine = {el_: {k_: v_.copy() for k_, v_ in dd.items()} for el_, dd in ic.items()}
+            ints = zlib.crc32(f"{case.get('id')}|ints".encode()) % 3 == 0
+            col = zlib.crc32(f"{case.get('id')}|col".encode()) % 5 == 0
+            ic = b.np_init(x, u, d, amode, ints, col)
+            # the history before the step is not part of its meaning: the next state is read after a plain step, or after
+            # one of three detours on the same network object (chosen per case)
+            via = zlib.crc32(f"{case.get('id')}|via".encode()) % 7
+            eng = np_engine()
+            x0 = {"rho": {l: [0.83 * z + 1.9 for z in s_] for l, s_ in x["rho"].items()},
+                  "v": {l: [1.07 * z + 2.3 for z in s_] for l, s_ in x["v"].items()},
+                  "w": {q_: 0.5 * z + 3.0 for q_, z in x["w"].items()}}
+            d0 = {"o": {q_: 1.1 * z + 7.0 for q_, z in d["o"].items()}, "dest": {q_: 0.9 * z + 1.0 for q_, z in d["dest"].items()}}
+            if via == 3 and amode == 0 and not ints and not any(okw.get(OPT_KW[k_]) for k_ in ("pis", "pid", "piq")):
+                # (a) step from other values, REFILL the very same arrays in place with the case's values, then step
+                # element by element in the library's own order (origins with states, then links), no re-initialisation
+                ic0 = b.np_init(x0, u, d0)
+                b.net.step(init_conditions=ic0, engine=eng, **okw, **kw)
+                for el_, dd in ic0.items():
+                    for k_, a_ in dd.items():
+                        a_[...] = ic[el_][k_]
+                ic = ic0
+                pristine = {el_: {k_: v_.copy() for k_, v_ in dd.items()} for el_, dd in ic.items()}
+                for ob in b.net.origins:
+                    if ob.has_states:
+                        ob.step(net=b.net, engine=eng, positive_next_queue=okw.get("positive_next_queue", False), **kw)
+                for _, _, ob in b.net.links:
+                    ob.step(net=b.net, engine=eng, positive_next_speed=okw.get("positive_next_speed", False),
+                            positive_next_density=okw.get("positive_next_density", False), **kw)
+                o["via"] = "refill+elementwise"
+            else:
+                if via == 4 and b.links:
+                    # (b) an earlier step on the same network FAILED part-way (unusable speeds for the last link)
+                    bad = b.np_init(x0, u, d0)
+                    last = list(b.links.values())[-1]
+                    bad[last]["v"] = np.array(["?"] * len(bad[last]["v"]), dtype=object)
+                    try:
+                        b.net.step(init_conditions=bad, engine=eng, **okw, **kw)
+                    except BaseException:  # noqa: BLE001
+                        pass
+                    o["via"] = "after-failed-step"
+                elif via == 5 and b.links:
+                    # (c) an earlier step from other values, then single elements stepped again by hand
+                    b.net.step(init_conditions=b.np_init(x0, u, d0), engine=eng, **okw, **kw)
+                    lk = list(b.links.values())
+                    for ob in (lk[zlib.crc32(f"{case.get('id')}|e1".encode()) % len(lk)], lk[-1]):
+                        ob.step(net=b.net, engine=eng, **kw)
+                    o["via"] = "after-element-steps"
+                pristine = {el_: {k_: v_.copy() for k_, v_ in dd.items()} for el_, dd in ic.items()}
+                b.net.step(init_conditions=ic, engine=eng, **okw, **kw)
             keys = {el_: list(dd) for el_, dd in ic.items()}
             ids = {el_: {k_: id(v_) for k_, v_ in dd.items()} for el_, dd in ic.items()}
-            b.net.step(init_conditions=ic, engine=np_engine(), **okw, **kw)
             o["y"], o["shapes"] = b.read_next()
+            # the flows the elements REPORT for this step (C05), asked after it
+            fl = {"has": False, "q": {}, "qo": {}, "err": ""}
+            try:
+                fl["q"] = {l_: [fr(z) for z in np.asarray(ob.get_flow(eng), float).reshape(-1)] for l_, ob in b.links.items()}
+                fl["qo"] = {o_: fr(float(np.asarray(ob.get_flow(b.net, engine=eng, **kw), float).reshape(-1)[0]))
+                            for o_, ob in b.origins.items()}
+                fl["has"] = True
+            except BaseException as e:  # noqa: BLE001
+                fl["err"] = errstr(e)
+            o["flows"] = fl
             o["ok"] = True
             if want.get("pure", False):
                 def changed():
@@ -370,7 +447,7 @@ def observe(case: dict) -> dict:
                 b.net.step(init_conditions=ic, engine=np_engine(), **okw, **kw)
                 y4, _ = b.read_next()
                 # ... must equal a fresh network stepped from fresh arrays holding those values
-                bf = Built(case)
+                bf = Built(case, arrays=True)
                 fresh = {bf.links.get(b.idof[el_]) or bf.origins.get(b.idof[el_]) or bf.dests.get(b.idof[el_]): dd for el_, dd in moved.items()}
                 bf.net.step(init_conditions=fresh, engine=np_engine(), **okw, **kw)
                 y5, _ = bf.read_next()
@@ -505,9 +582,30 @@ def run_fn(case, spec, x, u, d, rng):
             for o_, ob in b.origins.items():
                 if case["net"]["origins"][o_]["kind"] != "ideal":
                     ic[ob] = {"w": g(eng.sym_type.sym(f"w_{ob.name}_c", 1, 1))}
-        lib(b.net.step, init_conditions=ic, engine=eng, **opt_kwargs(case), **kw)
+        if not decl and ic is None and zlib.crc32(f"{case.get('id')}|{sym}{compact}|refn".encode()) % 3 == 0:
+            # the history before compiling is not part of the function's meaning: step with OTHER parameters, compile
+            # (throw-away), then step every element again by hand with the case's parameters, without re-initialising
+            other_kw = dict(kw, T=kw["T"] * 1.5, tau=kw["tau"] * 0.8)
+            lib(b.net.step, engine=eng, **opt_kwargs(case), **other_kw)
+            lib(eng.to_function, b.net, compact=0, more_out=True, **other_kw)
+            ok_ = opt_kwargs(case)
+            for ob in b.net.origins:
+                if ob.has_states:
+                    lib(ob.step, net=b.net, engine=eng, positive_next_queue=ok_.get("positive_next_queue", False), **kw)
+            for _, _, ob in b.net.links:
+                lib(ob.step, net=b.net, engine=eng, positive_next_speed=ok_.get("positive_next_speed", False),
+                    positive_next_density=ok_.get("positive_next_density", False), **kw)
+            rec["via"] = "recompiled after element-level steps"
+        else:
+            lib(b.net.step, init_conditions=ic, engine=eng, **opt_kwargs(case), **kw)
         pd = {name: s for name, s, _ in decl}
         other = {k: v for k, v in kw.items() if k not in pd}
+        if pd and zlib.crc32(f"{case.get('id')}|{sym}{compact}{more_out}|pd".encode()) % 2:
+            # the caller compiles twice from ONE parameters dictionary (first with the flows): its declared order stands
+            declared = list(pd)
+            lib(eng.to_function, b.net, compact=(compact + 1) % 3, more_out=True, parameters=pd, **other)
+            if list(pd) != declared:
+                raise LibraryError(f"to_function reordered the caller's parameters dictionary: {declared} -> {list(pd)}")
         F = lib(eng.to_function, b.net, compact=compact, more_out=more_out, parameters=pd or None, **other)
         rec["free"] = len(F.get_free()) if hasattr(F, "get_free") else 0
         rec["name_in"], rec["name_out"] = list(F.name_in()), list(F.name_out())
@@ -601,8 +699,15 @@ def observe_spy(case, x, u, d, okw, kw):
                         for grp in (ob.states, ob.actions, ob.disturbances, ob.next_states):
                             for v in (grp or {}).values():
                                 kinds.add(liferun.kind_of_value(v))
-                rec.update(ok=True, log=sorted(set(spy.log)), kinds=sorted(kinds),
-                           selection_kept=engines.get_current_engine() is spy)
+                kept = engines.get_current_engine() is spy
+                # ... and a step with the explicit engine that FAILS part-way (no sampling time given): the caller catches
+                # the error and carries on; the selection must still be its own
+                try:
+                    Built(case).net.step(engine=explicit, **okw)
+                except BaseException:  # noqa: BLE001
+                    pass
+                kept = kept and engines.get_current_engine() is spy
+                rec.update(ok=True, log=sorted(set(spy.log)), kinds=sorted(kinds), selection_kept=kept)
             except BaseException as e:  # noqa: BLE001
                 rec["err"] = errstr(e)
                 rec["log"] = sorted(set(spy.log))
@@ -649,6 +754,25 @@ def observe_twin(case, x, u, d):
         for sym in ("SX", "MX"):
             o["fn"].append({"sym": sym, "base": fn_states_by_name(case, sym, x, u, d),
                             "twin": fn_states_by_name(tcase, sym, x, u2, d)})
+        # a second step of both networks: the caller keeps its CONTROL arrays (allocated once, e.g. inf = signs off) and
+        # refills the state arrays in place (densities fall, speeds rise); the relation must hold again
+        okw, kw = opt_kwargs(case), par_kwargs(case)
+        pair = []
+        for cs_, uu in ((case, u), (tcase, u2)):
+            bb = Built(cs_, arrays=True)
+            ic_ = bb.np_init(x, uu, d)
+            eng = np_engine()
+            bb.net.step(init_conditions=ic_, engine=eng, **okw, **kw)
+            # (where the twin's controls were chosen neutral FOR THIS STATE - expectation "equal" - the state stays)
+            for dd in ic_.values():
+                for k_, a_ in dd.items():
+                    if k_ == "rho" and tw["expect"] == "le":
+                        a_[...] = a_ * 0.55 + 0.3
+                    elif k_ == "v" and tw["expect"] == "le":
+                        a_[...] = a_ * 1.05 + 1.0
+            bb.net.step(init_conditions=ic_, engine=eng, **okw, **kw)
+            pair.append(bb.read_next()[0])
+        o["fn"].append({"sym": "np-second-step", "base": pair[0], "twin": pair[1]})
         o["ok"] = True
     except BaseException as e:  # noqa: BLE001
         o["err"] = errstr(e)
